@@ -79,6 +79,22 @@ def V3Session.setKeys (D : Digests) (s : V3Session) (userName : Bytes) (authAlg 
 def pushPduCommunity (s : CommunitySession) (pdu : Pdu) (buf : Buf) : Outcome Buf :=
   pushCommunityMsg s.version buf ⟨s.community, pdu⟩
 
+/-- the tail of the v3 `push_pdu`: serialise, then sign at the bookmark when the session has an
+authentication key -/
+def finishV3 (D : Digests) (authKey : AuthKey) (msg : V3Msg) (buf : Buf) : Outcome Bytes := do
+  let b ← pushV3 buf msg
+  let dg ← b.data
+  if authKey.hasAuth then do
+    let offset ← b.getBookmark
+    sign D authKey dg offset
+  else pure dg
+
+/-- the message the v3 socket builds around a scoped PDU / ciphertext -/
+def v3MsgOf (s : V3Session) (flagReport : Bool) (privacyParams : Bytes) (data : MsgData) : V3Msg :=
+  { msgId := s.msgId, flagAuth := s.authKey.hasAuth, flagPriv := s.privKey.hasPriv, flagReport,
+    usm := ⟨s.engineId, s.engineBoots, s.engineTime, s.userName, s.authKey.placeholder, privacyParams⟩,
+    data }
+
 /-- `push_pdu` of the v3 socket; returns the new state and the finished datagram buffer -/
 def pushPduV3 (D : Digests) (C : Ciphers) (s : V3Session) (pdu : Pdu) (rawMsg : Int) (buf : Buf) :
     V3Session × Outcome Bytes :=
@@ -100,17 +116,7 @@ def pushPduV3 (D : Digests) (C : Ciphers) (s : V3Session) (pdu : Pdu) (rawMsg : 
   | .panic w => (s, .panic w)
   | .ok (privacyParams, data) =>
     let s := { s with msgId := maskId rawMsg }
-    let msg : V3Msg := {
-      msgId := s.msgId, flagAuth := s.authKey.hasAuth, flagPriv, flagReport,
-      usm := ⟨s.engineId, s.engineBoots, s.engineTime, s.userName, s.authKey.placeholder, privacyParams⟩,
-      data }
-    (s, do
-      let b ← pushV3 buf msg
-      let dg ← b.data
-      if s.authKey.hasAuth then do
-        let offset ← b.getBookmark
-        sign D s.authKey dg offset
-      else pure dg)
+    (s, finishV3 D s.authKey (v3MsgOf s flagReport privacyParams data) buf)
 
 /-- the request an API call turns into (`PyOp::from_python`) -/
 inductive Call where
